@@ -247,7 +247,13 @@ impl Prop for C16 {
         };
 
         // ---- 1. provably incompatible direct operands: must be rejected ----
-        if !an.must_reject.is_empty() && !an.has_interp {
+        if !an.must_reject.is_empty() && !an.has_interp && an.nested_number_of_unknown_unit > 0 {
+            // `min(max(1deg, 3), 3deg, 2s)`: the inner function yields the unitless 3, the running
+            // minimum is then comparable with every later operand and Sass (dart-sass alike)
+            // never compares 3deg with 2s - false alarm of the first silence sweep on seed 4
+            cx.class("must-reject:not-judged(nested min/max/clamp yields a number of undetermined unit)");
+        }
+        if !an.must_reject.is_empty() && !an.has_interp && an.nested_number_of_unknown_unit == 0 {
             cx.class("judged:must-reject");
             if let Outcome::Error(e) = &res.outcome {
                 cx.class(if e.message.contains("incompatible") {
